@@ -191,7 +191,7 @@ def main():
         pl["_idx"] = k
     deadline = t0 + (args.deadline if args.deadline else (600 if tier == "quick" else 3 * 3600))
     if "VERIF_RUN_WATCHDOG" not in os.environ:
-        fanout.RUN_WATCHDOG_S = 240 if tier == "quick" else 1800
+        fanout.RUN_WATCHDOG_S = 400 if tier == "quick" else 1800
         os.environ["VERIF_RUN_WATCHDOG"] = str(fanout.RUN_WATCHDOG_S)  # inherited by the forked workers
     pool = fanout.Pool(args.workers)
     evaluations = 0
@@ -205,9 +205,12 @@ def main():
     per_plan = {}
     clean = {}  # reaction -> {json(fault-free row): [plan indices]}
     results_prior = {}
+    timed_out = []
     try:
         for i, r in pool.map_unordered("checks.dispatch:execute", plans, deadline=deadline):
             r["_plan_index"] = i
+            if r.get("harness_timeout"):
+                timed_out.append(i)
             results_prior[i] = [k for k in r.get("prior", []) if k is not None]
             evaluations += 1
             runs += r.get("runs", 1)
@@ -380,6 +383,10 @@ def main():
         os.makedirs(os.path.join(HERE, "evidence"), exist_ok=True)
         with open(os.path.join(HERE, "evidence", "%s.json" % prop), "w") as f:
             json.dump(ev, f, indent=1, sort_keys=True)
+    if timed_out and rc == 0:
+        # a plan that could not be explored is never reported as "held"
+        print("HARNESS-TIMEOUT: %d plan(s) exceeded their time budget and were not explored: %s" % (len(timed_out), timed_out[:10]))
+        rc = 2
     print("done: %d plans, %d simulated runs, %d distinct non-trivial, %.1fs, exit %d" % (evaluations, runs, len(nontrivial), wall, rc))
     return rc
 
